@@ -721,8 +721,11 @@ def p_norm_xy(pts):
     XX, A = norm_xy(aa.copy())
     ok = bool(np.isfinite(XX).all()) and all(math.isfinite(v) for v in tuple(A)[:6])
     if ok:
-        ok = _close(XX.mean(axis=0), (0.0, 0.0), 1e-9) and _close(np.sqrt((XX ** 2).sum(axis=1)).mean(), math.sqrt(2), 1e-9)
-        ok = ok and _close(np.asarray([A * (x, y) for x, y in pts]), XX, 1e-9) and A.b == 0 and A.d == 0 and A.a == A.e
+        # float64 cancellation: the centroid and A*pt are differences of numbers of size |pts|*scale, so the
+        # admissible absolute error grows with that size (64 ulp of it), never below 1e-9
+        tol = 1e-9 + 64 * 2.0 ** -52 * float(np.abs(aa).max()) * abs(A.a) * len(aa)
+        ok = bool(np.all(np.abs(XX.mean(axis=0)) <= tol)) and _close(np.sqrt((XX ** 2).sum(axis=1)).mean(), math.sqrt(2), 1e-9)
+        ok = ok and bool(np.all(np.abs(np.asarray([A * (x, y) for x, y in pts]) - XX) <= tol * 3)) and A.b == 0 and A.d == 0 and A.a == A.e
     return ok, f"norm_xy -> A={tuple(A)[:6]} first rows={XX[:3].tolist()}"
 
 
